@@ -11,4 +11,6 @@ Rejected == obs.a \in {"reply", "replytext", "dreply", "release"} /\ obs.exp.ret
 Skel  == <<mode, max, target, own, attached, clen, [h \in 1..MaxH |-> handles[h] # <<>>],
            Rejected, IF Rejected THEN obs.a ELSE "">>
 Emit  == PrintT(<<"BEHAV", ToJson(hist')>>)
+CMsgDom == {<<0, 2, 104, 105>>, <<>>, <<7>>}
+CTextDom == {<<2, <<111, 107>>>>, <<255, <<>>>>}
 =============================================================================
